@@ -27,7 +27,7 @@ func init() {
 
 var profC14Seq = Profile{
 	MaxBars: 6, MinBars: 1, MaxSteps: 35, Refresh: []string{"manual", "autoinj", "autort", "none"}, QLens: []int{-1, -1, 0, -2},
-	Pop: 25, Queue: 15, Prio: true, Ext: 10, Text: 1, Rm: 25, NoPop: 15, AbortW: 2, TicksW: 8,
+	Pop: 25, Queue: 15, LateSuccW: 1, Prio: true, Ext: 10, Text: 1, Rm: 25, NoPop: 15, AbortW: 2, TicksW: 8,
 	SyncDecors: 1, PlainDecors: 2, Wraps: true, Listeners: 60, EwmaPct: 30, DisabledPct: 8, Delay: 20, DelayNever: 40, OutSlow: 10, UserWG: 15, Notifier: 60, Fillers: []string{"tag", "bar"}, LateAdd: true, Cancel: 85,
 }
 
